@@ -127,7 +127,7 @@ func newRuleFlagSet() *ruleFlagSet {
 	rule.flagSet.Var((*valueFilterList)(&rule.Filters), "F", "filter")
 	rule.flagSet.Var(&rule.Syscalls, "S", "syscall name, number, or 'all'")
 	rule.flagSet.Var(&rule.Permissions, "p", "access type - r=read, w=write, x=execute, a=attribute change")
-	rule.flagSet.StringVar(&rule.Path, "w", "", "path to watch, no wildcards")
+	rule.flagSet.Var((*pathFlag)(&rule.Path), "w", "path to watch, no wildcards")
 	rule.flagSet.Var(&rule.Key, "k", "key")
 
 	return rule
@@ -316,6 +316,9 @@ type addFlag struct {
 }
 
 func (f *addFlag) Set(value string) error {
+	if f.List != "" || f.Action != "" {
+		return fmt.Errorf("list and action already specified as '%v'", f)
+	}
 	parts := strings.Split(value, ",")
 	if len(parts) > 2 {
 		return fmt.Errorf("expected a list type and action but got '%v'", value)
@@ -344,6 +347,21 @@ func (f *addFlag) Set(value string) error {
 func (f *addFlag) String() string {
 	return fmt.Sprintf("%v,%v", f.List, f.Action)
 }
+
+// --- pathFlag ---
+
+// pathFlag is a flag type for the path of a file watch. It can be given once.
+type pathFlag string
+
+func (p *pathFlag) Set(value string) error {
+	if *p != "" {
+		return fmt.Errorf("path already specified as '%v'", *p)
+	}
+	*p = pathFlag(value)
+	return nil
+}
+
+func (p *pathFlag) String() string { return string(*p) }
 
 // --- fileAccessTypeFlags ---
 
